@@ -48,6 +48,11 @@ def run(ctx):
         if users and all(S.neutral(u) for u in users):
             process_wide.add(st_path)
     ctx.extra["process_wide_write_once_statics"] = sorted(process_wide)
+    # generation tokens (an atomic counter advanced by read-modify-write, loaded only to test "is my token still the
+    # current one?") carry nothing from one query to the next that a query can observe
+    tokens = statics.generation_tokens(prog, cg, acc)
+    ctx.extra["generation_token_statics"] = tokens
+    process_wide |= set(tokens)
     G = {}
     for p in reach:
         for a in acc.get(p, []):
@@ -140,15 +145,15 @@ def run(ctx):
     bad = [s for s in prog.lib["statics"] if any(x in s["ty"] for x in ("SolutionNode", "RefCell", "Rc<", "HashMap", "Vec<"))]
     ctx.ob("R4", "no-node-state-in-statics", not bad, "", "statics holding search state: %s" % [s["path"] for s in bad] if bad
            else "no static holds nodes, sets or collections (%d statics)" % len(prog.lib["statics"]))
-    # ---- R5: no timer of an earlier query survives it (C23/R1) -----------------------------------------------------
+    # ---- R5: no timer of an earlier query survives it (C23/R1), or fires harmlessly (C23/R2 failed-cancel-harmless) -----------------------------------------------------
     import importlib
     c23 = importlib.import_module("rules.C23")
     before = len(ctx.obs)
     c23.run(ctx)
     keep = []
     for o in ctx.obs[before:]:
-        if o["rule"] == "R1":
-            o["instance"] = "C23.R1." + o["instance"]
+        if o["rule"] == "R1" or (o["rule"] == "R2" and o["instance"] == "failed-cancel-harmless"):
+            o["instance"] = "C23.%s." % o["rule"] + o["instance"]
             o["rule"] = "R5"
             o["key"] = "C22/R5/" + o["instance"]
             keep.append(o)
